@@ -344,6 +344,26 @@ pub struct Monitor {
     answered_kind: [std::collections::VecDeque<ReqKind>; 2],
 }
 
+/// Static probe name for a message variant key (for the completeness self-test of C09).
+pub fn variant_static(key: &str) -> &'static str {
+    const KEYS: &[&str] = &[
+        "Reset", "Hello", "Ping", "PortOpened", "PortCredits", "SendFinish", "ReceiveClose", "ReceiveFinish",
+        "ClientFinish", "ListenerFinish", "Goodbye",
+        "OpenPort/wait=0/id=0", "OpenPort/wait=0/id=1", "OpenPort/wait=1/id=0", "OpenPort/wait=1/id=1",
+        "Rejected/no_ports=0", "Rejected/no_ports=1",
+        "Data/first=0/last=0", "Data/first=0/last=1", "Data/first=1/last=0", "Data/first=1/last=1",
+        "PortData/first=1/last=1/wait=0/ids=0", "PortData/first=1/last=1/wait=0/ids=1",
+        "PortData/first=1/last=1/wait=1/ids=0", "PortData/first=1/last=1/wait=1/ids=1",
+        "PortData/first=1/last=0/wait=0/ids=0", "PortData/first=1/last=0/wait=0/ids=1",
+        "PortData/first=1/last=0/wait=1/ids=0", "PortData/first=1/last=0/wait=1/ids=1",
+        "PortData/first=0/last=1/wait=0/ids=0", "PortData/first=0/last=1/wait=0/ids=1",
+        "PortData/first=0/last=1/wait=1/ids=0", "PortData/first=0/last=1/wait=1/ids=1",
+        "PortData/first=0/last=0/wait=0/ids=0", "PortData/first=0/last=0/wait=0/ids=1",
+        "PortData/first=0/last=0/wait=1/ids=0", "PortData/first=0/last=0/wait=1/ids=1",
+    ];
+    KEYS.iter().find(|k| **k == key).copied().unwrap_or("variant_other")
+}
+
 fn sig(what: &str) -> String {
     format!("wire:{what}")
 }
@@ -445,9 +465,13 @@ impl Monitor {
         }
 
         if !self.real[e] {
-            // Frames of a scripted peer are not checked; track Data/payload pairing only.
-            if let Ok(Frame::Data { port, first, last }) = decode(data) {
-                self.send_payload[e] = Some((port, first, last));
+            // Frames of a scripted peer are not checked; track Data/payload pairing and its Hello only.
+            match decode(data) {
+                Ok(Frame::Data { port, first, last }) => self.send_payload[e] = Some((port, first, last)),
+                Ok(Frame::Hello { version, timeout_ms, chunk_size, recv_buf, connect_queue }) => {
+                    self.hello[e] = Some(HelloCfg { version, timeout_ms, chunk_size, recv_buf, connect_queue });
+                }
+                _ => {}
             }
             return;
         }
@@ -473,7 +497,21 @@ impl Monitor {
                 format!("{}: endpoint {e} emitted {:02x?}, reference encoding of {:?} is {:02x?}", self.name, data, frame, canon),
             );
         }
-        self.variants.insert(frame.variant_key());
+        let key = frame.variant_key();
+        kit::probe(variant_static(&key));
+        self.variants.insert(key);
+        // No port ids may be sent to a peer that announced a protocol version without them.
+        if let Some(h) = self.hello[p]
+            && h.version < 3
+            && matches!(&frame, Frame::OpenPort { id: Some(_), .. } | Frame::PortData { ids: Some(_), .. })
+        {
+            kit::class_violation(
+                "codec",
+                "id-sent-to-v2-peer",
+                sig("id-sent-to-v2-peer"),
+                format!("{}: endpoint {e} sent {:?} with port ids to a version {} peer", self.name, frame, h.version),
+            );
+        }
 
         if self.mode != MonitorMode::Full {
             if let Frame::Data { port, first, last } = frame {
